@@ -3823,3 +3823,79 @@ func E4ListLinks(c *core.Ctx, r *core.Report) {
 	r.Count("E4.list-paths", n)
 	r.Floor("E4.list-paths", 6)
 }
+
+// E4FlaggedPairRealBreak: the demerits for two consecutive flagged breaks need two breaks.
+func E4FlaggedPairRealBreak(c *core.Ctx, r *core.Report) {
+	r.Rule("E4.flagged-pair-real-break", "Linebreak charges DemeritsFlagged when a line starts and ends at a flagged break. The node a line starts from is looked up through `items[a.Position].Flagged`; the start node of the paragraph has Position 0 without being a break, so the condition under which DemeritsFlagged is added also tests another field of that node (its line number or its parent) — otherwise a paragraph whose first item is a flagged penalty pays the charge for every flagged break of its first line and a dearer breaking wins")
+	p := c.MustPkg("text")
+	info := p.TypesInfo
+	n := 0
+	for _, fd := range core.AllFuncDecls(p) {
+		if fd.Body == nil {
+			continue
+		}
+		ast.Inspect(fd.Body, func(m ast.Node) bool {
+			is, ok := m.(*ast.IfStmt)
+			if !ok {
+				return true
+			}
+			adds := false
+			for _, st := range is.Body.List {
+				if as, ok := st.(*ast.AssignStmt); ok && as.Tok == token.ADD_ASSIGN && len(as.Rhs) == 1 {
+					if id, ok := core.Unparen(as.Rhs[0]).(*ast.Ident); ok {
+						if v, ok := info.Uses[id].(*types.Var); ok && v.Parent() == p.Types.Scope() && v.Name() == "DemeritsFlagged" {
+							adds = true
+						}
+					}
+				}
+			}
+			if !adds {
+				return true
+			}
+			n++
+			key := fmt.Sprintf("text.%s|DemeritsFlagged #%d needs a real previous break", core.FuncName(fd), n)
+			// the node whose position indexes the items
+			var node types.Object
+			ast.Inspect(is.Cond, func(q ast.Node) bool {
+				if ie, ok := q.(*ast.IndexExpr); ok {
+					if se, ok := core.Unparen(ie.Index).(*ast.SelectorExpr); ok {
+						if id, ok := core.Unparen(se.X).(*ast.Ident); ok {
+							node = core.ObjOf(info, id)
+						}
+					}
+				}
+				return true
+			})
+			if node == nil {
+				r.Fail("E4.flagged-pair-real-break", key, c.Pos(is.Pos()), "the condition does not look the previous break up through a node's position")
+				return true
+			}
+			tested := ""
+			ast.Inspect(is.Cond, func(q ast.Node) bool {
+				be, ok := q.(*ast.BinaryExpr)
+				if !ok {
+					return true
+				}
+				switch be.Op {
+				case token.LSS, token.LEQ, token.GTR, token.GEQ, token.EQL, token.NEQ:
+					for _, side := range []ast.Expr{be.X, be.Y} {
+						if se, ok := core.Unparen(side).(*ast.SelectorExpr); ok {
+							if id, ok := core.Unparen(se.X).(*ast.Ident); ok && core.ObjOf(info, id) == node {
+								tested = c.Src(be)
+							}
+						}
+					}
+				}
+				return true
+			})
+			if tested != "" {
+				r.OK("E4.flagged-pair-real-break", key, c.Pos(is.Pos()), tested)
+			} else {
+				r.Fail("E4.flagged-pair-real-break", key, c.Pos(is.Pos()), fmt.Sprintf("`%s` takes the start node (Position 0, not a break) for a flagged break when the first item is flagged", c.Src(is.Cond)))
+			}
+			return true
+		})
+	}
+	r.Count("E4.flagged-pair-sites", n)
+	r.Floor("E4.flagged-pair-sites", 1)
+}
